@@ -570,4 +570,31 @@ theorem quiescent_of_rest (s : State) (hw : s.watch = .reading) (hin : s.inbound
   | wPoll | wRead | wLookup | wDeliver | wOffer | wOfferCancel | wNack | wExit => simp [step, hw, hin, hr]
   | _ => simp [Label.internal] at hl
 
+/-- a Send call is never in Submit's final select -/
+def InvSend (tbl : Nat → Caller) (s : State) : Prop := ∀ i, (tbl i).kind = .send → (s.callers i).pc ≠ .waiting
+
+set_option maxHeartbeats 1000000 in
+theorem invSend_step (tbl) (s s' : State) (l : Label) (h1 : Inv1 tbl s) (hi : InvSend tbl s) (hs : Step s l s') :
+    InvSend tbl s' := by
+  have hst := h1.static
+  intro j hk
+  have hj := hi j hk
+  cases hs <;> (try simp only [setPc]) <;>
+    first
+    | exact hj
+    | grind [upd, updI]
+
+theorem invSend (tbl) (hd : Distinct tbl) (hf : Fresh tbl) (s : State) (h : Reach tbl s) : InvSend tbl s := by
+  induction h with
+  | init => intro i _; have := (hf i).1; simp [init, this]
+  | @step s s' l hr ha hs ih => exact invSend_step tbl s s' l (inv1 tbl hd hf s hr) ih (step_sound s s' l hs)
+
+/-- a Send call never stays blocked: at rest it has returned (or was never started) -/
+theorem send_returns_at_rest (tbl) (hd : Distinct tbl) (hf : Fresh tbl) (s : State) (hr : Reach tbl s) (hq : Quiescent s)
+    (i : Nat) (hk : (tbl i).kind = .send) : (s.callers i).pc = .idle ∨ ∃ r, (s.callers i).pc = .done r := by
+  rcases quiescent_pc s hq i with h | h | ⟨h, _, _, _⟩
+  · exact Or.inl h
+  · exact Or.inr h
+  · exact absurd h (invSend tbl hd hf s hr i hk)
+
 end Smpp.Conn
